@@ -20,6 +20,54 @@ func init() { register("C15", checkC15) }
 // branchSelectors: in every if/else whose condition is one of conds, the
 // then-branch must use only thenSel and the else-branch only elseSel.
 func branchSelectors(p *load.Prog, fd *ast.FuncDecl, conds []string, a, b string) (n int, bad []string) {
+	return branchSelectorsIn(p, fd, conds, a, b, nil, 0)
+}
+
+// branchSelectorsIn also follows the flag into helpers: a call that passes the
+// signedness (the field itself, or a parameter that stands for it) hands the
+// choice to the callee, whose parameter is then the condition to look for.
+func branchSelectorsIn(p *load.Prog, fd *ast.FuncDecl, conds []string, a, b string, flags map[types.Object]bool, depth int) (n int, bad []string) {
+	pkg := p.Bebop()
+	info := pkg.TypesInfo
+	isFlag := func(e ast.Expr) bool {
+		e = ast.Unparen(e)
+		if sel, ok := e.(*ast.SelectorExpr); ok {
+			for _, c := range conds {
+				if sel.Sel.Name == c {
+					return true
+				}
+			}
+		}
+		if id, ok := e.(*ast.Ident); ok && flags[info.ObjectOf(id)] {
+			return true
+		}
+		return false
+	}
+	if depth < 2 {
+		ast.Inspect(fd.Body, func(m ast.Node) bool {
+			call, ok := m.(*ast.CallExpr)
+			if !ok {
+				return true
+			}
+			cal := load.Callee(info, call)
+			if cal == nil || cal.Pkg() != pkg.Types {
+				return true
+			}
+			cd := p.Decl(cal)
+			sig, _ := cal.Type().(*types.Signature)
+			if cd == nil || cd.Body == nil || cd == fd || sig == nil {
+				return true
+			}
+			for i, arg := range call.Args {
+				if isFlag(arg) && i < sig.Params().Len() {
+					cn, cbad := branchSelectorsIn(p, cd, conds, a, b, map[types.Object]bool{sig.Params().At(i): true}, depth+1)
+					n += cn
+					bad = append(bad, cbad...)
+				}
+			}
+			return true
+		})
+	}
 	count := func(n ast.Node) (na, nb int) {
 		ast.Inspect(n, func(m ast.Node) bool {
 			if sel, ok := m.(*ast.SelectorExpr); ok {
@@ -40,15 +88,7 @@ func branchSelectors(p *load.Prog, fd *ast.FuncDecl, conds []string, a, b string
 			return true
 		}
 		// the condition is the enum's Unsigned field, whatever the variable is called
-		hit := false
-		if sel, ok := ast.Unparen(ifs.Cond).(*ast.SelectorExpr); ok {
-			for _, c := range conds {
-				if sel.Sel.Name == c {
-					hit = true
-				}
-			}
-		}
-		if !hit {
+		if !isFlag(ifs.Cond) {
 			return true
 		}
 		n++
@@ -97,7 +137,26 @@ func checkC15(c *core.Ctx) {
 		}
 		n, bad := branchSelectors(p, fd, cfgx.conds, "UintValue", "Value")
 		sites += n
-		c.Check("R1", cfgx.fn+" picks the enum value member by signedness", p.Pos(fd.Pos()), n > 0 && len(bad) == 0, strings.Join(bad, "; "))
+		if n == 0 {
+			// no branch on the signedness at all: a defect if a value member is
+			// read regardless, an unknown arrangement otherwise
+			reads := false
+			for _, g := range declClosure(p, pkg, fd, 1) {
+				ast.Inspect(g.Body, func(m ast.Node) bool {
+					if sel, ok := m.(*ast.SelectorExpr); ok && (sel.Sel.Name == "UintValue" || sel.Sel.Name == "Value") {
+						if t := info.TypeOf(sel.X); t != nil && strings.HasSuffix(t.String(), ".EnumOption") {
+							reads = true
+						}
+					}
+					return true
+				})
+			}
+			if !reads {
+				c.Undecide("%s: neither a branch on the enum's signedness nor a read of an option's value found: not recognised", cfgx.fn)
+				continue
+			}
+		}
+		c.Check("R1", cfgx.fn+" picks the enum value member by signedness", p.Pos(fd.Pos()), n > 0 && len(bad) == 0, strings.Join(bad, "; ")+" (no branch on the enum's Unsigned field selects between .UintValue and .Value)")
 	}
 	if fd := p.FuncDecl(pkg, "readEnumOptionValue"); fd != nil {
 		// if <bool parameter> { ParseUint; return 0, v, nil } else { ParseInt; return v, 0, nil }
